@@ -64,6 +64,9 @@ func NewKVWorld(cfg Config) *KVWorld {
 	hb, err := rosmar.OpenBucket(BucketURL(cfg, "b1"), "b1", rosmar.CreateOrOpen)
 	must(err)
 	w.HB = hb
+	// a KeysOnly live feed, registered before the ordinary ones: it shares the collection's events with them
+	fk := NewFeedRec("fAk")
+	must(w.A[0].StartDCPFeed(ctx, sgbucket.FeedArguments{ID: "fAk", Backfill: sgbucket.FeedNoBackfill, KeysOnly: true, Terminator: fk.Term, DoneChan: fk.Done}, fk.callback, nil))
 	f0, err := StartLiveFeed(w.A[0], "fA0")
 	must(err)
 	w.Feeds = append(w.Feeds, f0)
@@ -88,6 +91,7 @@ func NewKVWorld(cfg Config) *KVWorld {
 			must(c.Delete("j"))
 		}
 	}
+	w.Feeds = append(w.Feeds, fk)
 	vrt.Quiesce()
 	for _, f := range w.Feeds {
 		f.Take()
